@@ -55,17 +55,11 @@ Theorem C01_surviving_kind_nested : forall g pk nd ln dln eln name ds body own u
 Proof. exact class_surviving_kind. Qed.
 Print Assumptions C01_surviving_kind_nested.
 
-(* No Python error for any statement list, except exactly when an @overload definition sits directly in the body of a
-   class's __init__ (finding C01-F1); then the result is the TypeError the implementation raises. *)
-Theorem C01_visit_total_modulo_known : forall mname body,
-  (gap_overload_in_init_list InModule body = false -> exists r, run_visit mname body = Ok r) /\
-  (gap_overload_in_init_list InModule body = true -> run_visit mname body = Err "TypeError").
-Proof. exact visit_total_exact. Qed.
-Print Assumptions C01_visit_total_modulo_known.
-
-Theorem C01_visit_total_refuted : exists body, run_visit "m" body = Err "TypeError".
-Proof. exact visit_total_refuted_ex. Qed.
-Print Assumptions C01_visit_total_refuted.
+(* No Python error for any statement list (the TypeError of an @overload def inside a class's __init__, finding F1,
+   is repaired: the overload is dropped there, only modules and classes keep an overload buffer). *)
+Theorem C01_visit_total : forall mname body, exists r, run_visit mname body = Ok r.
+Proof. exact visit_total. Qed.
+Print Assumptions C01_visit_total.
 
 (* Every extension trace is well bracketed: the module/class instance event opens a bracket, its members event closes
    the innermost open one, every member's instance/alias event lies inside the bracket of its parent (or of the class
@@ -75,34 +69,30 @@ Theorem C01_events_well_bracketed : forall mname body r,
 Proof. exact events_well_bracketed. Qed.
 Print Assumptions C01_events_well_bracketed.
 
-(* Attribute docstrings: the faithful model reproduces two defects (findings F2, F3). *)
-Theorem C01_attribute_docstring_refuted :
-  member_doc "m" doc_else_witness "x" = Some (Some 4) /\
-  member_doc "m" chained_leak_witness "y" = Some (Some 2).
-Proof. exact attribute_docstring_refuted. Qed.
-Print Assumptions C01_attribute_docstring_refuted.
-
 (* A name bound only by @overload definitions yields no member (finding F6). *)
 Theorem C01_overload_only_refuted : exists r, run_visit "m" overload_only_witness = Ok r /\ r_members r = [].
 Proof. exact overload_only_refuted. Qed.
 Print Assumptions C01_overload_only_refuted.
 
 (* Visibility: the ladders regenerated from mixins.py agree with the documented table on every input
-   (finite domain: 3 * 2^10 * 5 inputs, by reflection), modulo findings F4 (empty __all__) and F5 (no parent). *)
+   (finite domain: 3 * 2^10 * 5 inputs, by reflection), is_public modulo finding F4 (empty __all__). *)
 Theorem C01_visibility_table_names : forall i,
   is_special i = Some (doc_is_special i) /\ is_private i = Some (doc_is_private i) /\
   is_class_private i = Some (doc_is_class_private i) /\ is_imported i = Some (doc_is_imported i).
 Proof. exact visibility_table_names. Qed.
 Print Assumptions C01_visibility_table_names.
 
-Theorem C01_visibility_table_modulo_known : forall i, vin_consistent i = true ->
-  (gap_no_parent i = false -> is_exported i = Some (doc_is_exported i) /\ is_wildcard_exposed i = Some (doc_is_wildcard_exposed i)) /\
-  (gap_empty_all i = false -> is_public i = Some (doc_is_public i)).
+Theorem C01_visibility_table_exposure : forall i, vin_consistent i = true ->
+  is_exported i = Some (doc_is_exported i) /\ is_wildcard_exposed i = Some (doc_is_wildcard_exposed i).
+Proof. exact visibility_table_exposure. Qed.
+Print Assumptions C01_visibility_table_exposure.
+
+Theorem C01_visibility_table_modulo_known : forall i, vin_consistent i = true -> gap_empty_all i = false ->
+  is_public i = Some (doc_is_public i).
 Proof. exact visibility_table_modulo_known. Qed.
 Print Assumptions C01_visibility_table_modulo_known.
 
 Theorem C01_visibility_table_refuted :
-  (exists i, vin_consistent i = true /\ is_exported i = None /\ is_wildcard_exposed i = None) /\
-  (exists i, vin_consistent i = true /\ is_public i = Some true /\ doc_is_public i = false).
+  exists i, vin_consistent i = true /\ is_public i = Some true /\ doc_is_public i = false.
 Proof. exact visibility_table_refuted. Qed.
 Print Assumptions C01_visibility_table_refuted.
